@@ -289,12 +289,13 @@ func (r *inFlightRequest) onFrameReceived(f *frame.Frame) error {
 }
 
 func (r *inFlightRequest) startTimeout() {
-	r.timeoutCtx, r.timeoutCancel = context.WithTimeout(r.ctx, r.timeout)
+	timeoutCtx, timeoutCancel := context.WithTimeout(r.ctx, r.timeout)
+	r.timeoutCtx, r.timeoutCancel = timeoutCtx, timeoutCancel
 	log.Trace().Msgf("%v: timeout started", r)
 	go func() {
 		select {
-		case <-r.timeoutCtx.Done():
-			switch r.timeoutCtx.Err() {
+		case <-timeoutCtx.Done():
+			switch timeoutCtx.Err() {
 			case context.DeadlineExceeded:
 				err := fmt.Errorf("%v: timed out waiting for incoming frames", r)
 				r.close(err)
@@ -311,7 +312,7 @@ func (r *inFlightRequest) stopTimeout() {
 	}
 }
 
-func (r inFlightRequest) resetTimeout() {
+func (r *inFlightRequest) resetTimeout() {
 	r.stopTimeout()
 	r.startTimeout()
 }
